@@ -211,28 +211,54 @@ macro_rules! gen_sweep {
             let live_e = m.live_edges();
             let cap_n = nb + 3;
             let cap_e = eb + 3;
-            let got: Vec<usize> = g.node_indices().take(cap_n).map(|x| x.index()).collect();
+            use $crate::iterck::{adapters, double_ended, drain};
+            let got: Vec<usize> = drain(cx, g.node_indices(), cap_n, &format!("{}:node_indices", t))?.into_iter().map(|x| x.index()).collect();
             cx.ensure(got == live_n, &format!("{}:node_indices", t), || format!("node_indices {:?}, model {:?}", got, live_n))?;
-            let mut got: Vec<usize> = g.node_indices().rev().take(cap_n).map(|x| x.index()).collect();
+            let mut got: Vec<usize> = drain(cx, g.node_indices().rev(), cap_n, &format!("{}:node_indices.rev", t))?.into_iter().map(|x| x.index()).collect();
             got.reverse();
             cx.ensure(got == live_n, &format!("{}:node_indices.rev", t), || format!("{:?} vs {:?}", got, live_n))?;
-            let got: Vec<usize> = g.edge_indices().take(cap_e).map(|x| x.index()).collect();
+            let got: Vec<usize> = drain(cx, g.edge_indices(), cap_e, &format!("{}:edge_indices", t))?.into_iter().map(|x| x.index()).collect();
             cx.ensure(got == live_e, &format!("{}:edge_indices", t), || format!("edge_indices {:?}, model {:?}", got, live_e))?;
-            let mut got: Vec<usize> = g.edge_indices().rev().take(cap_e).map(|x| x.index()).collect();
+            let mut got: Vec<usize> = drain(cx, g.edge_indices().rev(), cap_e, &format!("{}:edge_indices.rev", t))?.into_iter().map(|x| x.index()).collect();
             got.reverse();
             cx.ensure(got == live_e, &format!("{}:edge_indices.rev", t), || format!("{:?} vs {:?}", got, live_e))?;
-            let got: Vec<u32> = g.node_weights().take(cap_n).copied().collect();
+            let got: Vec<u32> = drain(cx, g.node_weights(), cap_n, &format!("{}:node_weights", t))?.into_iter().copied().collect();
             let want: Vec<u32> = live_n.iter().map(|&i| m.nodes[i].unwrap()).collect();
             cx.ensure(got == want, &format!("{}:node_weights", t), || format!("{:?} vs {:?}", got, want))?;
-            let got: Vec<u32> = g.edge_weights().take(cap_e).copied().collect();
+            let got: Vec<u32> = drain(cx, g.edge_weights(), cap_e, &format!("{}:edge_weights", t))?.into_iter().copied().collect();
             let want: Vec<u32> = live_e.iter().map(|&i| m.e(i).w).collect();
             cx.ensure(got == want, &format!("{}:edge_weights", t), || format!("{:?} vs {:?}", got, want))?;
-            let got: Vec<(usize, usize, usize, u32)> = g.edge_references().take(cap_e).map(|e| (e.id().index(), e.source().index(), e.target().index(), *e.weight())).collect();
+            let got: Vec<(usize, usize, usize, u32)> = drain(cx, g.edge_references(), cap_e, &format!("{}:edge_references", t))?.into_iter().map(|e| (e.id().index(), e.source().index(), e.target().index(), *e.weight())).collect();
             let want: Vec<(usize, usize, usize, u32)> = live_e.iter().map(|&i| (i, m.e(i).src, m.e(i).dst, m.e(i).w)).collect();
             cx.ensure(got == want, &format!("{}:edge_references", t), || format!("{:?} vs {:?}", got, want))?;
-            let mut got: Vec<(usize, usize, usize, u32)> = g.edge_references().rev().take(cap_e).map(|e| (e.id().index(), e.source().index(), e.target().index(), *e.weight())).collect();
+            let mut got: Vec<(usize, usize, usize, u32)> = drain(cx, g.edge_references().rev(), cap_e, &format!("{}:edge_references.rev", t))?.into_iter().map(|e| (e.id().index(), e.source().index(), e.target().index(), *e.weight())).collect();
             got.reverse();
             cx.ensure(got == want, &format!("{}:edge_references.rev", t), || format!("{:?} vs {:?}", got, want))?;
+            {
+                use petgraph::visit::{IntoNodeReferences, NodeRef};
+                let got: Vec<(usize, u32)> = drain(cx, g.node_references(), cap_n, &format!("{}:node_references", t))?.into_iter().map(|r| (r.id().index(), *r.weight())).collect();
+                let want: Vec<(usize, u32)> = live_n.iter().map(|&i| (i, m.nodes[i].unwrap())).collect();
+                cx.ensure(got == want, &format!("{}:node_references", t), || format!("{:?} vs {:?}", got, want))?;
+                // the rest of the Iterator / DoubleEndedIterator contract of the whole-graph iterators
+                adapters(cx, || g.node_indices(), |x| x.index(), cap_n, &format!("{}:node_indices", t), salt)?;
+                adapters(cx, || g.edge_indices(), |x| x.index(), cap_e, &format!("{}:edge_indices", t), salt)?;
+                adapters(cx, || g.edge_references(), |e| (e.id().index(), e.source().index(), e.target().index(), *e.weight()), cap_e, &format!("{}:edge_references", t), salt)?;
+                adapters(cx, || g.node_references(), |r| (r.id().index(), *r.weight()), cap_n, &format!("{}:node_references", t), salt)?;
+                adapters(cx, || g.node_weights(), |w| *w, cap_n, &format!("{}:node_weights", t), salt)?;
+                adapters(cx, || g.edge_weights(), |w| *w, cap_e, &format!("{}:edge_weights", t), salt)?;
+                double_ended(cx, || g.node_indices(), |x| x.index(), cap_n, &format!("{}:node_indices", t), salt)?;
+                double_ended(cx, || g.edge_indices(), |x| x.index(), cap_e, &format!("{}:edge_indices", t), salt + 1)?;
+                double_ended(cx, || g.edge_references(), |e| e.id().index(), cap_e, &format!("{}:edge_references", t), salt + 2)?;
+                double_ended(cx, || g.node_references(), |r| r.id().index(), cap_n, &format!("{}:node_references", t), salt + 3)?;
+            }
+            gen_sweep!(@graph_only $graph_only, {
+                use petgraph::visit::IntoNodeReferences;
+                use $crate::iterck::drain_exact;
+                drain_exact(cx, g.node_indices(), cap_n, &format!("{}:node_indices", t))?;
+                drain_exact(cx, g.edge_indices(), cap_e, &format!("{}:edge_indices", t))?;
+                drain_exact(cx, g.edge_references(), cap_e, &format!("{}:edge_references", t))?;
+                drain_exact(cx, g.node_references(), cap_n, &format!("{}:node_references", t))?;
+            });
             // ---- per node
             let mut ns = $crate::dsmodel::sweep_nodes(m, salt);
             // absent nodes: a vacant one, the bound, beyond
@@ -271,20 +297,27 @@ macro_rules! gen_sweep {
                         |e| (e.id().index(), e.source().index(), e.target().index(), *e.weight())
                     };
                 }
-                let got: Vec<_> = g.edges(ni(a)).take(cap).map(er!()).collect();
+                let got: Vec<_> = drain(cx, g.edges(ni(a)), cap, &format!("{}:edges", t))?.into_iter().map(er!()).collect();
                 cmp_list(cx, got, want_out.clone(), ord, &format!("{}:edges", t), || ctx("edges"))?;
-                let got: Vec<_> = g.edges_directed(ni(a), Outgoing).take(cap).map(er!()).collect();
+                let got: Vec<_> = drain(cx, g.edges_directed(ni(a), Outgoing), cap, &format!("{}:edges_directed", t))?.into_iter().map(er!()).collect();
                 cmp_list(cx, got, want_out.clone(), ord, &format!("{}:edges_directed(Outgoing)", t), || ctx("edges_directed/Outgoing"))?;
-                let got: Vec<_> = g.edges_directed(ni(a), Incoming).take(cap).map(er!()).collect();
+                let got: Vec<_> = drain(cx, g.edges_directed(ni(a), Incoming), cap, &format!("{}:edges_directed", t))?.into_iter().map(er!()).collect();
                 cmp_list(cx, got, want_in.clone(), ord, &format!("{}:edges_directed(Incoming)", t), || ctx("edges_directed/Incoming"))?;
-                let got: Vec<usize> = g.neighbors(ni(a)).take(cap).map(|x| x.index()).collect();
+                let got: Vec<usize> = drain(cx, g.neighbors(ni(a)), cap, &format!("{}:neighbors", t))?.into_iter().map(|x| x.index()).collect();
                 cmp_list(cx, got, want_out.iter().map(|x| x.2).collect(), ord, &format!("{}:neighbors", t), || ctx("neighbors"))?;
-                let got: Vec<usize> = g.neighbors_directed(ni(a), Outgoing).take(cap).map(|x| x.index()).collect();
+                let got: Vec<usize> = drain(cx, g.neighbors_directed(ni(a), Outgoing), cap, &format!("{}:neighbors_directed", t))?.into_iter().map(|x| x.index()).collect();
                 cmp_list(cx, got, want_out.iter().map(|x| x.2).collect(), ord, &format!("{}:neighbors_directed(Outgoing)", t), || ctx("neighbors_directed/Outgoing"))?;
-                let got: Vec<usize> = g.neighbors_directed(ni(a), Incoming).take(cap).map(|x| x.index()).collect();
+                let got: Vec<usize> = drain(cx, g.neighbors_directed(ni(a), Incoming), cap, &format!("{}:neighbors_directed", t))?.into_iter().map(|x| x.index()).collect();
                 cmp_list(cx, got, want_in.iter().map(|x| x.1).collect(), ord, &format!("{}:neighbors_directed(Incoming)", t), || ctx("neighbors_directed/Incoming"))?;
-                let got: Vec<usize> = g.neighbors_undirected(ni(a)).take(cap).map(|x| x.index()).collect();
+                let got: Vec<usize> = drain(cx, g.neighbors_undirected(ni(a)), cap, &format!("{}:neighbors_undirected", t))?.into_iter().map(|x| x.index()).collect();
                 cmp_list(cx, got, inc.iter().map(|&e| m.other(e, a)).collect(), false, &format!("{}:neighbors_undirected", t), || ctx("neighbors_undirected"))?;
+                if (a + salt) % 3 == 0 {
+                    adapters(cx, || g.edges(ni(a)), er!(), cap, &format!("{}:edges", t), salt)?;
+                    adapters(cx, || g.edges_directed(ni(a), Incoming), er!(), cap, &format!("{}:edges_directed(Incoming)", t), salt)?;
+                    adapters(cx, || g.neighbors(ni(a)), |x| x.index(), cap, &format!("{}:neighbors", t), salt)?;
+                    adapters(cx, || g.neighbors_directed(ni(a), Incoming), |x| x.index(), cap, &format!("{}:neighbors_directed(Incoming)", t), salt)?;
+                    adapters(cx, || g.neighbors_undirected(ni(a)), |x| x.index(), cap, &format!("{}:neighbors_undirected", t), salt)?;
+                }
                 // detached walker: same (edge, node) sequence as edges(a)
                 let mut w = g.neighbors(ni(a)).detach();
                 let mut got = vec![];
@@ -344,14 +377,15 @@ macro_rules! gen_sweep {
                         }
                         None => cx.ensure(either.is_empty(), &format!("{}:find_edge_undirected-missed", t), || format!("find_edge_undirected({},{}) = None, edges between them {:?}", a, b, either))?,
                     }
-                    let got: Vec<usize> = g.edges_connecting(ni(a), ni(b)).take(cap).map(|e| e.id().index()).collect();
+                    let got: Vec<usize> = drain(cx, g.edges_connecting(ni(a), ni(b)), cap, &format!("{}:edges_connecting", t))?.into_iter().map(|e| e.id().index()).collect();
                     let want: Vec<usize> = want_out.iter().filter(|x| x.2 == b).map(|x| x.0).collect();
                     cmp_list(cx, got, want, ord, &format!("{}:edges_connecting", t), || format!("edges_connecting({},{})", a, b))?;
                 }
             }
             // ---- externals
             for dir in [Outgoing, Incoming] {
-                let mut got: Vec<usize> = g.externals(dir).take(cap_n).map(|x| x.index()).collect();
+                let mut got: Vec<usize> = drain(cx, g.externals(dir), cap_n, &format!("{}:externals", t))?.into_iter().map(|x| x.index()).collect();
+                adapters(cx, || g.externals(dir), |x| x.index(), cap_n, &format!("{}:externals", t), salt)?;
                 got.sort_unstable();
                 let want: Vec<usize> = live_n
                     .iter()
